@@ -7,6 +7,7 @@ A check of property Cxx does (DESIGN.md 2.4):
   4. verdict          VIOLATION / KNOWN-FINDING / no-failing-input-found / ok
 """
 import base64
+import functools
 import hashlib
 import json
 import os
@@ -88,12 +89,26 @@ class Skip:
 
 
 ORACLES = {}
+AUTO_MEMORY_KINDS = ('f', 'lead-permuted', 'strided', 'reversed')
 
 
 def oracle(fn):
-    ORACLES[fn.__module__.split('.')[-1] + '.' + fn.__name__] = fn
-    fn.oracle_name = fn.__module__.split('.')[-1] + '.' + fn.__name__
-    return fn
+    """register a property oracle.  Every oracle accepts the extra keyword `_memory` (DESIGN.md 8.5): the memory layout in
+    which its array inputs are presented to the code under test (same values; Fortran order, transposed leading axes,
+    strided slice of a larger buffer, reversed last axis) - it is part of the recorded inputs, so replays reproduce it."""
+    name = fn.__module__.split('.')[-1] + '.' + fn.__name__
+
+    @functools.wraps(fn)
+    def wrapped(*a, _memory=None, **kw):
+        if _memory and _memory != 'c':
+            from . import gen
+            kw = {k: (gen.relayout(v, _memory) if isinstance(v, np.ndarray) and v.ndim >= 1 and v.size > 0 else v)
+                  for k, v in kw.items()}
+        return fn(*a, **kw)
+    wrapped.oracle_name = name
+    wrapped.plain = fn
+    ORACLES[name] = wrapped
+    return wrapped
 
 
 # ----------------------------------------------------------------------------- context
@@ -103,6 +118,10 @@ class Ctx:
         self.tier = tier
         self.seed = seed
         self.rng = np.random.default_rng([seed, int(prop[1:])])
+        # separate stream for the memory-layout dimension, so that adding it does not shift the main stream
+        self.mem_rng = np.random.default_rng([seed, int(prop[1:]), 77])
+        self.mem_p = float(os.environ.get('VERIF_MEMORY_P', '0.25'))
+        self.auto_memory = True
         self.t0 = time.time()
         self.budget_s = budget_s
         self.deep = False
@@ -142,6 +161,10 @@ class Ctx:
         self.evaluations += 1
         name = orc.oracle_name
         self.count('oracle:' + name)
+        if self.auto_memory and '_memory' not in inputs and 'memory' not in inputs and self.mem_p > 0 \
+                and any(isinstance(v, np.ndarray) for v in inputs.values()) and self.mem_rng.random() < self.mem_p:
+            inputs['_memory'] = str(self.mem_rng.choice(AUTO_MEMORY_KINDS))
+            self.count('memory-layout:' + inputs['_memory'])
         try:
             res = orc(**inputs)
         except Exception as e:  # an oracle must catch what the property allows
